@@ -243,6 +243,8 @@ TEXT_CHECKS = {
     'check_dfa2regexp': lambda t: nb.check_dfa2regexp(t['dfa'], t['answer'], 4),
     'cfg_check_chomsky': lambda t: nbch.cfg_check_chomsky(t['cfg'], t['answer'], t['phase'], 'S', 3),
     'check_cfg_accepts_rejects': lambda t: nb.check_cfg_accepts_rejects(t['cfg'], t['acc'], t['rej']),
+    'check_cyk_matrix': lambda t: nbc.check_cyk_matrix(t['cfg'], t['word'], t['answer']),
+    'check_cfg_derivation': lambda t: nbc.check_cfg_derivation(t['cfg'], t['answer'], t['word'], 'leftmost'),
     'check_dfa_syntax': lambda t: nb.check_dfa_syntax(t['dfa']),
     'check_nfa_syntax': lambda t: nb.check_nfa_syntax(t['nfa']),
 }
@@ -427,7 +429,33 @@ def _text_check(rng, made, sigma):
             return None
         G = rng.choice(cfgs)
         t['cfg'] = render_cfg(G)
-        if name == 'cfg_check_chomsky':
+        if name in ('check_cyk_matrix', 'check_cfg_derivation'):
+            cnf = [g for g in cfgs if rcfg.is_cnf(g)]
+            if not cnf:
+                return None
+            G = rng.choice(cnf)
+            t['cfg'] = render_cfg(G)
+            L = sorted(w for w in rcfg.lang_upto(G, 4) if w)
+            if not L:
+                return None
+            w = rng.choice(L)
+            t['word'] = w
+            if name == 'check_cyk_matrix':
+                X = rcfg.cyk_table(G, w)
+                n = len(w)
+                rows = []
+                for i in range(n - 1, -1, -1):      # top line first: one entry X[0, n-1]; bottom line: the diagonal
+                    rows.append(' '.join('{' + ','.join(sorted(X[j, j + i])) + '}' for j in range(n - i)))
+                if wrong:
+                    rows[-1] = rows[-1].replace('{', '{Z,', 1) if rng.random() < 0.5 else ' '.join(rows[-1].split()[:-1]) or '{}'
+                t['answer'] = '\n'.join(rows)
+            else:
+                d = rcfg.leftmost_derivation(G, w)
+                forms = [''.join(x[0] for x in f) for f in d]
+                if wrong and len(forms) > 2:
+                    del forms[rng.randrange(1, len(forms) - 1)]
+                t['answer'] = ' => '.join(forms)
+        elif name == 'cfg_check_chomsky':
             t['phase'] = rng.randint(0, 5)
             t['answer'] = render_cfg(G)       # the unconverted grammar as "answer": right language, wrong form for phase >= 1
         else:
